@@ -573,7 +573,7 @@ func markdownEscape(w strWriter, s string, allowHTML bool) error {
 				esc = slash
 			}
 		case ' ', '\t':
-			if 0 < i && i < len(s)-1 {
+			if 0 < i && i < len(s)-1 && s[i-1] != '\n' && s[i-1] != '\r' {
 				if c := s[i+1]; c != ' ' && c != '\t' {
 					continue
 				}
